@@ -172,6 +172,7 @@ type Engine struct {
 	shadow    map[*Value]*shadow
 	cellName  map[*Value]string
 	curSite   string
+	ticks     int // remaining ticker firings granted by verifrt.Ticks
 	numStr    map[string]*Term
 	randDraws [][]*Term
 	symIPs    map[string]Value
@@ -310,6 +311,7 @@ func (e *Engine) runPath(fn *ssa.Function) (cont bool) {
 	e.randDraws = nil
 	e.symIPs = map[string]Value{}
 	e.th = nil
+	e.ticks = 0
 	e.clock = e.st.Const(64, 1<<60)
 	if e.solver != nil {
 		e.solver.PopTo(0)
